@@ -9,7 +9,7 @@ EXPECT = {}   # qualname -> list of 'T' / 'F' per ensures clause
 def register(reg):
     def probe(q, params, returns, clauses, **kw):
         EXPECT[q] = [t for t, _ in clauses]
-        reg.contract(SRC, q, params=params, returns=returns, ensures=[c for _, c in clauses], modifies=[], props=["SELF"], **kw)
+        kw.setdefault("modifies", []); reg.contract(SRC, q, params=params, returns=returns, ensures=[c for _, c in clauses], props=["SELF"], **kw)
 
     LL = List(List(INT))
     probe("row_sums", {"rows": LL}, List(INT), [
@@ -53,3 +53,36 @@ def register(reg):
         ("F", "result == len(xs)"),
         ("F", "result == 0"),
     ])
+    probe("pairs_of", {"xs": List(INT)}, LL, [
+        ("T", "len(result) == len(xs)"),
+        # every binding builds its own list
+        ("F", "forall(range(0, len(result)), lambda j: result[j] is result[0])"),
+        ("F", "forall(range(0, len(result)), lambda j: result[j][0] == result[0][0])"),
+    ], fresh_result=True)
+    probe("parts", {"xs": List(STR)}, List(List(STR)), [
+        ("F", "forall(range(0, len(result)), lambda j: len(result[j]) == len(result[0]))"),
+        ("F", "forall(range(0, len(result)), lambda j: result[j] is result[0])"),
+    ], fresh_result=True)
+    probe("dicts_of", {"xs": List(INT)}, List(COMP), [
+        ("F", "forall(range(0, len(result)), lambda j: result[j] is result[0])"),
+        ("F", "forall(range(0, len(result)), lambda j: get0(result[j], 'v') == get0(result[0], 'v'))"),
+    ], fresh_result=True)
+    probe("firsts", {"rows": LL}, List(INT), [
+        ("T", "len(result) <= len(rows)"),
+        ("F", "len(result) == len(rows)"),
+        ("F", "forall(range(0, len(result)), lambda j: result[j] == rows[j][0])"),
+    ], fresh_result=True)
+    probe("any_neg", {"rows": LL}, List(BOOL), [
+        ("T", "len(result) == len(rows)"),
+        ("F", "forall(range(0, len(result)), lambda j: result[j] == result[0])"),
+    ], fresh_result=True)
+    probe("total", {"xs": List(INT)}, INT, [
+        ("T", "result == sum(x for x in xs)"),
+        ("F", "result == 0"),
+        ("F", "result >= 0"),
+    ], loops={0: {"inv": ["t == sumto(_i, (x for x in xs))"]}})
+    probe("update_all", {"ds": List(COMP)}, List(COMP), [
+        ("T", "result is ds"),
+        ("F", "forall(range(0, len(ds)), lambda j: get0(ds[j], 'n') == old(get0(ds[j], 'n')) + 1)"),   # false when two entries alias
+        ("F", "forall(range(0, len(ds)), lambda j: get0(ds[j], 'n') == 1)"),
+    ], loops={0: {"inv": ["True"]}}, modifies=["*D.str.int.dom", "*D.str.int.val"])
